@@ -210,6 +210,9 @@ func (c *compiler) compileTryStatement(v *ast.TryStatement, needResult bool) {
 		if bodyNeedResult && finallyBreaking != nil && lp == -1 {
 			c.emit(clearResult)
 		}
+		// the redirection applies to branch statements in the 'try' and 'catch' blocks only (their target is
+		// overridden when the 'finally' block reaches its own break/continue), not to those in the 'finally' block
+		c.block.breaking = nil
 		c.compileBlockStatement(v.Finally, false)
 		c.emit(leaveFinally{})
 	} else {
